@@ -9,9 +9,32 @@ use std::io::{self, BufRead, Write};
 use std::num::NonZeroUsize;
 use std::panic::{catch_unwind, AssertUnwindSafe};
 
+/// Bump allocator: deterministic memory layout, so that "a node of another arena lying directly behind this arena's
+/// storage" (C11, get_node_id) can be reproduced on demand. Nothing is ever freed; replays are short-lived.
+struct Bump;
+const HEAP: usize = 1 << 28;
+static mut HEAP_BUF: [u8; HEAP] = [0; HEAP];
+static HEAP_OFF: std::sync::atomic::AtomicUsize = std::sync::atomic::AtomicUsize::new(0);
+unsafe impl std::alloc::GlobalAlloc for Bump {
+    unsafe fn alloc(&self, l: std::alloc::Layout) -> *mut u8 {
+        use std::sync::atomic::Ordering;
+        let base = std::ptr::addr_of_mut!(HEAP_BUF) as *mut u8 as usize;
+        loop {
+            let off = HEAP_OFF.load(Ordering::Relaxed);
+            let start = (base + off + l.align() - 1) & !(l.align() - 1);
+            let end = start + l.size() - base;
+            if end > HEAP { return std::ptr::null_mut(); }
+            if HEAP_OFF.compare_exchange(off, end, Ordering::Relaxed, Ordering::Relaxed).is_ok() { return start as *mut u8; }
+        }
+    }
+    unsafe fn dealloc(&self, _p: *mut u8, _l: std::alloc::Layout) {}
+}
+#[global_allocator]
+static GLOBAL: Bump = Bump;
+
 thread_local! {
     static DROPS: RefCell<Vec<u8>> = RefCell::new(Vec::new());
-    static RENDER: RefCell<HashMap<u8, String>> = RefCell::new(HashMap::new());
+    static RENDER: RefCell<HashMap<u8, Vec<String>>> = RefCell::new(HashMap::new());
 }
 
 /// Payload with observable identity and destructor.
@@ -33,10 +56,10 @@ impl PartialEq for P {
 }
 impl fmt::Debug for P {
     fn fmt(&self, f: &mut fmt::Formatter<'_>) -> fmt::Result {
-        // pretty-print replays register a rendering per payload; default is the plain number
+        // pretty-print replays register a rendering per payload (delivered chunk by chunk); default is the plain number
         let r = RENDER.with(|r| r.borrow().get(&self.0).cloned());
         match r {
-            Some(s) => f.write_str(&s),
+            Some(chunks) => { for c in chunks.iter() { f.write_str(c)?; } Ok(()) }
             None => write!(f, "P({})", self.0),
         }
     }
@@ -45,7 +68,7 @@ impl fmt::Display for P {
     fn fmt(&self, f: &mut fmt::Formatter<'_>) -> fmt::Result {
         let r = RENDER.with(|r| r.borrow().get(&self.0).cloned());
         match r {
-            Some(s) => f.write_str(&s),
+            Some(chunks) => { for c in chunks.iter() { f.write_str(c)?; } Ok(()) }
             None => write!(f, "P({})", self.0),
         }
     }
@@ -143,6 +166,23 @@ fn run_cmd(m: &mut M, w: &[&str]) -> String {
         // ---- arenas as values
         "arena_new" => { m.arenas.push(Arena::new()); m.cur = m.arenas.len() - 1; format!("{}", m.cur) }
         "arena_with_capacity" => { let n: usize = w[1].parse().unwrap(); m.arenas.push(Arena::with_capacity(n)); m.cur = m.arenas.len() - 1; format!("{}", m.cur) }
+        "arena_adjacent" => {
+            // arena_adjacent N : a new current arena with capacity exactly N, and directly behind its storage (no allocation in
+            // between) a second arena holding one node; prints the index of the second arena and whether the layout is adjacent
+            let n: usize = w[1].parse().unwrap();
+            m.arenas.reserve(2);
+            let a: Arena<P> = Arena::with_capacity(n);
+            let mut b: Arena<P> = Arena::with_capacity(1);
+            let fid = b.new_node(P(250));
+            let cap = a.capacity();
+            let end = a.as_slice().as_ptr() as usize + cap * std::mem::size_of::<indextree::Node<P>>();
+            let adjacent = b.as_slice().as_ptr() as usize == end;
+            m.arenas.push(a);
+            m.arenas.push(b);
+            m.cur = m.arenas.len() - 2;
+            m.regs.insert("foreign".to_string(), fid);
+            format!("{} cap={} adjacent={}", m.arenas.len() - 1, cap, adjacent)
+        }
         "arena_clone" => { let c = m.arenas[m.cur].clone(); m.arenas.push(c); format!("{}", m.arenas.len() - 1) }
         "arena_select" => { m.cur = w[1].parse().unwrap(); format!("{}", m.cur) }
         "arena_eq" => { let (i, j): (usize, usize) = (w[1].parse().unwrap(), w[2].parse().unwrap()); format!("{}", m.arenas[i] == m.arenas[j]) }
@@ -235,8 +275,10 @@ fn run_cmd(m: &mut M, w: &[&str]) -> String {
         "render" => {
             // render D <escaped text>
             let d: u8 = w[1].parse().unwrap();
-            let t = w[2..].join(" ").replace("\\n", "\n");
-            RENDER.with(|r| r.borrow_mut().insert(d, t));
+            // chunks are separated by the two characters `|~|`, newlines are written as \n
+            let t = w[2..].join(" ");
+            let chunks: Vec<String> = t.split("|~|").map(|c| c.replace("\\n", "\n")).collect();
+            RENDER.with(|r| r.borrow_mut().insert(d, chunks));
             "()".into()
         }
         "pretty" => {
@@ -261,7 +303,8 @@ fn main() {
     std::panic::set_hook(Box::new(|_| {}));
     let stdin = io::stdin();
     let out = io::stdout();
-    let mut m = M { arenas: vec![Arena::new()], cur: 0, regs: HashMap::new() };
+    let mut m = M { arenas: Vec::with_capacity(16), cur: 0, regs: HashMap::with_capacity(4096) };
+    m.arenas.push(Arena::new());
     for (ln, line) in stdin.lock().lines().enumerate() {
         let line = line.unwrap();
         let w: Vec<&str> = line.split_whitespace().collect();
